@@ -431,8 +431,16 @@ func (h *MultiHandler) store(msg *Message) {
 
 // getRoundMessage attempts to unmarshal a raw Message for round `r` in a round.Message.
 // If an error is returned, we should abort.
-func getRoundMessage(msg *Message, r round.Session) (round.Message, error) {
+func getRoundMessage(msg *Message, r round.Session) (roundMsg round.Message, err error) {
 	var content round.Content
+
+	// the decoder (and the custom unmarshalers it calls) may panic on hostile input;
+	// a message that cannot be decoded safely is simply a bad message
+	defer func() {
+		if p := recover(); p != nil {
+			roundMsg, err = round.Message{}, fmt.Errorf("failed to unmarshal: %v", p)
+		}
+	}()
 
 	// there are two possible content messages
 	if msg.Broadcast {
@@ -449,7 +457,7 @@ func getRoundMessage(msg *Message, r round.Session) (round.Message, error) {
 	if err := cbor.Unmarshal(msg.Data, content); err != nil {
 		return round.Message{}, fmt.Errorf("failed to unmarshal: %w", err)
 	}
-	roundMsg := round.Message{
+	roundMsg = round.Message{
 		From:      msg.From,
 		To:        msg.To,
 		Content:   content,
